@@ -44,4 +44,22 @@ def obligations(tier):
                       tier="quick" if il in (0, 16, 17, 18, 34, 57) else "thorough",
                       desc="secretstream pull on an arbitrary chunk: accept <=> all 16 stored MAC bytes equal the recomputed MAC; rejection leaves state and output untouched",
                       bounds="arbitrary state/chunk/ad; inlen enumerated"))
+    for ag in (256, 128):
+        rate = 16 if ag == 256 else 32
+        an = "256" if ag == 256 else "128l"
+        # each instance costs 2-5 min of SAT time (1.2 M variables): the quick tier takes one shape that crosses the
+        # rate with a partial tail block; the thorough tier the boundary grid
+        qm = (rate + 1,)
+        qa = (1,)
+        tm = (0, 1, rate - 1, rate, rate + 1, 2 * rate, 2 * rate + 7)
+        ta = (0, 1, rate, rate + 1)
+        ms, als = (sorted(set(tm)), list(ta)) if tier == "thorough" else (list(qm), list(qa))
+        for ml in ms:
+            for al in als:
+                q = ml in qm and al in qa
+                obs.append(Ob("aegis%s-reject-m%d-a%d" % (an, ml, al), "C01/aegis.c",
+                              units=AEGIS_UNITS[ag] + GLUE_UNITS, stubs=AEGIS_STUBS, instrument=AEGIS_CUTS[ag], object_bits=12, defs={"AEGIS": ag, "MLEN": ml, "ADLEN": al, "PART": 1},
+                              unwind=110, timeout=2400, mem=8, tier="quick" if q else "thorough", family="aegis%s-soft" % an,
+                              desc="AEGIS portable implementation over an abstract AES round: accept <=> tag delta == 0; zero-filled output and mlen 0 on rejection; verify-only mode; short input",
+                              bounds="all key/nonce/message/ad/tag bytes; (mlen, adlen) enumerated around the rate (16 bytes for AEGIS-256, 32 for AEGIS-128L)"))
     return obs
